@@ -787,6 +787,219 @@ def handleHist (kind : String) (toks : List String) : String :=
     | _, _ => "bad-op"
   | [] => "bad-op"
 
+/-! ### live objects that share parts (round 2, class L8)
+
+Lookups by time on a series go through the series' `.time` object.  Python objects are positions in a `Store`:
+every `UniformTime` the program can reach is an entry of `axes`, every `TimeSeries` an entry of `series` holding
+its data, its OWN attribute values (`own`: t0, Δ, n, unit — what the lazily built `.time` is made from) and the
+cache of the `time` property (`none` before the first read).  Constructors allocate; an in-place operator rewrites
+the axis object it is applied to and nothing else.  `SCfg` switches on the two cooperating short-cuts of the
+"avoid rebuilding the axis" kind: `seriesKeepsAxis` (the constructor caches the caller's axis object when it
+already is the series' axis) and `copyPassesOwnAxis` (`copy()` — hence every arithmetic result — hands
+`self.time` itself to the constructor).  The theorems are about `sIntended`. -/
+
+structure SObj where
+  data : List (List Int)
+  own : UAxis
+  time : Option Nat
+  deriving Repr, DecidableEq
+
+structure Store where
+  axes : List UAxis
+  series : List SObj
+  deriving Repr, DecidableEq
+
+structure SCfg where
+  seriesKeepsAxis : Bool
+  copyPassesOwnAxis : Bool
+  deriving Repr, DecidableEq
+
+def sIntended : SCfg := ⟨false, false⟩
+
+inductive SCmd where
+  /-- `TimeSeries(data, time=axes[ax], time_unit=axes[ax].time_unit)` -/
+  | seriesOn (ax : Nat) (data : List (List Int))
+  /-- read `series[sid].time` -/
+  | readTime (sid : Nat)
+  /-- `series[sid].copy()` -/
+  | copy (sid : Nat)
+  /-- `series[sid] + k` (all of `+ - * /` go through `copy()`) -/
+  | arith (sid : Nat) (k : Int)
+  /-- `series[sid].during(e)` -/
+  | during (sid : Nat) (e : Epochs)
+  /-- `axes[id].copy()`, `UniformTime(axes[id])` -/
+  | axisCopy (id : Nat)
+  /-- `axes[id] <op>= x` -/
+  | inplaceAxis (id : Nat) (ch : UChange)
+  /-- `series[sid].time <op>= x` -/
+  | inplaceTime (sid : Nat) (ch : UChange)
+  /-- a lookup by time / epoch / position on `series[sid]` -/
+  | look (sid : Nat) (op : String) (rest : List String)
+  /-- a lookup on `axes[id]` -/
+  | lookAxis (id : Nat) (op : String) (rest : List String)
+  deriving Repr, DecidableEq
+
+namespace Store
+
+def pushAxis (st : Store) (a : UAxis) : Store := { st with axes := st.axes ++ [a] }
+def pushSeries (st : Store) (s : SObj) : Store := { st with series := st.series ++ [s] }
+def setAxis (st : Store) (id : Nat) (a : UAxis) : Store := { st with axes := st.axes.set id a }
+
+/-- first read of `.time`: the axis is built from the series' own attributes, allocated and cached -/
+def allocTime (st : Store) (sid : Nat) : Store :=
+  match st.series[sid]? with
+  | none => st
+  | some s => match s.time with
+    | some _ => st
+    | none => { axes := st.axes ++ [s.own], series := st.series.set sid { s with time := some st.axes.length } }
+
+/-- the id `.time` of `series[sid]` returns (after `allocTime`) -/
+def timeId (st : Store) (sid : Nat) : Option Nat := (st.series[sid]?).bind (·.time)
+
+/-- what a lookup on `series[sid]` is asked of: its data and the CURRENT value of its time axis object
+(the axis its own attributes describe as long as `.time` has not been read) -/
+def viewOf (st : Store) (sid : Nat) : Option Series :=
+  (st.series[sid]?).map fun s =>
+    { axis := match s.time with
+        | some p => (st.axes[p]?).getD s.own
+        | none => s.own,
+      data := s.data }
+
+end Store
+
+def rowLen (d : List (List Int)) : Nat := (d.headD []).length
+
+/-- the attributes a series built on the axis value `a` gets -/
+def ownOf (a : UAxis) : UAxis := a.reset a.t0 a.dt
+
+/-- the new series made by `copy()` / arithmetic from `series[sid]` whose axis object is `p` -/
+def copied (cfg : SCfg) (st : Store) (sid p : Nat) (f : Int → Int) : Store :=
+  match st.series[sid]?, st.axes[p]? with
+  | some s, some a =>
+    st.pushSeries { data := s.data.map (·.map f), own := ownOf a,
+                    time := if cfg.copyPassesOwnAxis && cfg.seriesKeepsAxis then some p else none }
+  | _, _ => st
+
+/-- one command: the store afterwards and what the program sees (`ok`, the axis after an in-place operator, a refusal,
+the answer of a lookup) -/
+def execS (cfg : SCfg) (st : Store) : SCmd → Store × String
+  | .seriesOn ax data =>
+    match st.axes[ax]? with
+    | none => (st, "err IndexError")
+    | some a =>
+      if rowLen data ≠ a.n then (st, "err ValueError")
+      else (st.pushSeries { data := data, own := ownOf a, time := if cfg.seriesKeepsAxis then some ax else none }, "ok")
+  | .readTime sid =>
+    let st1 := st.allocTime sid
+    match st1.timeId sid with
+    | some p => (st1, match st1.axes[p]? with | some a => "ok " ++ showU a | none => "err IndexError")
+    | none => (st1, "err IndexError")
+  | .copy sid =>
+    let st1 := st.allocTime sid
+    match st1.timeId sid with
+    | some p => (copied cfg st1 sid p id, "ok")
+    | none => (st1, "err IndexError")
+  | .arith sid k =>
+    let st1 := st.allocTime sid
+    match st1.timeId sid with
+    | some p => (copied cfg st1 sid p (· + k), "ok")
+    | none => (st1, "err IndexError")
+  | .during sid e =>
+    let st1 := st.allocTime sid
+    match st1.series[sid]?, st1.viewOf sid with
+    | some s, some v =>
+      match v.during e with
+      | .error er => (st1, showErr er)
+      | .ok out =>
+        -- positions are found on the axis OBJECT; the result is built from `t0=e.offset, sampling_rate=self.sampling_rate`:
+        -- its interval is the series' OWN attribute
+        let block := out.blocks.headD []
+        let n := rowLen block
+        (st1.pushSeries { data := block, time := none,
+                          own := { t0 := out.t0, dt := s.own.dt, n := n, dur := (n : Int) * s.own.dt, unit := out.unit } }, "ok")
+    | _, _ => (st1, "err IndexError")
+  | .axisCopy id =>
+    match st.axes[id]? with
+    | none => (st, "err IndexError")
+    | some a => (st.pushAxis a, "ok")
+  | .inplaceAxis id ch =>
+    match st.axes[id]? with
+    | none => (st, "err IndexError")
+    | some a => match ch.apply a with
+      | .ok a' => (st.setAxis id a', "ok " ++ showU a')
+      | .error er => (st, showErr er)
+  | .inplaceTime sid ch =>
+    let st1 := st.allocTime sid
+    match st1.timeId sid with
+    | none => (st1, "err IndexError")
+    | some p => match st1.axes[p]? with
+      | none => (st1, "err IndexError")
+      | some a => match ch.apply a with
+        | .ok a' => (st1.setAxis p a', "ok " ++ showU a')
+        | .error er => (st1, showErr er)
+  | .look sid op rest =>
+    let st1 := st.allocTime sid
+    (st1, match st1.viewOf sid with
+      | some v => lookup (.series v) op rest
+      | none => "err IndexError")
+  | .lookAxis id op rest =>
+    (st, match st.axes[id]? with
+      | some a => lookup (.uaxis a) op rest
+      | none => "err IndexError")
+
+def stepS (cfg : SCfg) (st : Store) (c : SCmd) : Store := (execS cfg st c).1
+
+def runS (cfg : SCfg) (st : Store) (cs : List SCmd) : Store := cs.foldl (stepS cfg) st
+
+/-- the outputs of a program, in order -/
+def outS (cfg : SCfg) : Store → List SCmd → List String
+  | _, [] => []
+  | st, c :: cs => let r := execS cfg st c; r.2 :: outS cfg r.1 cs
+
+/-- `N <ax> <data>` | `T <sid>` | `Y <sid>` | `A <sid> <k>` | `D <sid> <epoch tokens>` | `X <id>` | `IA <id> <change>` |
+`IT <sid> <route> <change>` | `L <sid> <op> <args>` | `LA <id> <op> <args>` -/
+def parseSCmd? (toks : List String) : Option SCmd :=
+  match toks with
+  | ["N", ax, d] => do let ax ← ax.toNat?; let d ← parseD? d; pure (.seriesOn ax d)
+  | ["T", sid] => sid.toNat?.map .readTime
+  | ["Y", sid] => sid.toNat?.map .copy
+  | ["A", sid, k] => do let sid ← sid.toNat?; let k ← k.toInt?; pure (.arith sid k)
+  | "D" :: sid :: e => do
+    let sid ← sid.toNat?
+    match ← parseEpochs? e with
+    | .ok e => pure (.during sid e)
+    | .error _ => none
+  | ["X", id] => id.toNat?.map .axisCopy
+  | "IA" :: id :: ch => do
+    let id ← id.toNat?
+    match ← parseChange? ch with
+    | .uax c => pure (.inplaceAxis id c)
+    | _ => none
+  | "IT" :: sid :: _route :: ch => do
+    let sid ← sid.toNat?
+    match ← parseChange? ch with
+    | .uax c => pure (.inplaceTime sid c)
+    | _ => none
+  | "L" :: sid :: op :: rest => sid.toNat?.map fun sid => .look sid op rest
+  | "LA" :: id :: op :: rest => id.toNat?.map fun id => .lookAxis id op rest
+  | _ => none
+
+/-- the axis object every series holds (`-`: `.time` not read yet) -/
+def showIds (st : Store) : String :=
+  if st.series.isEmpty then "-" else ",".intercalate (st.series.map fun s => match s.time with
+    | some p => toString p
+    | none => "-")
+
+/-- `share <axis> | <cmd> | <cmd> …`: a program over a store that starts with one axis object (id 0) -/
+def handleShare (toks : List String) : String :=
+  match splitAt "|" toks with
+  | [a] :: cmds => match parseU? a, cmds.mapM parseSCmd? with
+    | some a, some cs =>
+      let st0 : Store := { axes := [a], series := [] }
+      " ; ".intercalate (outS sIntended st0 cs ++ ["ids " ++ showIds (runS sIntended st0 cs)])
+    | _, _ => "bad-op"
+  | _ => "bad-op"
+
 /-- one line = one operation, `seq step ; step ; …` (the model is pure, so the answer to a sequence
 of lookups is the answer to each step with the arguments as written), `hist …`, or
 `derive uaxis <axis> <uadd|usub|ursub> <0-d?> <operand ps>` (arithmetic that makes a NEW object) -/
@@ -794,6 +1007,7 @@ def handle (args : List String) : String :=
   match args with
   | "seq" :: rest => " ; ".intercalate ((splitSteps rest).map handleOne)
   | "hist" :: kind :: rest => handleHist kind rest
+  | "share" :: rest => handleShare rest
   | "derive" :: "uaxis" :: a :: ch => match parseU? a, parseChange? ch with
     | some a, some (.uax c) => match a.derive c with
       | .ok c' => "ok " ++ showCont c'
